@@ -63,6 +63,10 @@ pub fn compare<K: Fam>(cx: &StepCx<K>, e: &Expect) -> Result<(), String> {
         Ok(())
     };
     match (e, cx.res) {
+        // a panic is C03's violation first; it is also one here when the model leaves no doubt about what the
+        // call must do (succeed with a known effect, or fail with an error value of a known kind)
+        (Expect::MustOk(_), CallRes::Panic(p)) => Err(format!("{}: the call panicked ({p}) where the map model expects it to succeed", describe_step(cx))),
+        (Expect::MustErr(kinds), CallRes::Panic(p)) => Err(format!("{}: the call panicked ({p}) where it must fail with one of {kinds:?}", describe_step(cx))),
         (_, CallRes::Panic(_)) | (_, CallRes::DecodeErr(_)) => Ok(()),
         (Expect::MustOk(eff), CallRes::Ok(_)) => eff_ok(eff),
         (Expect::MustOk(_), CallRes::Err(k, m)) => Err(format!("{}: the call failed ({k:?}: {m}) although no failure cause applies", describe_step(cx))),
